@@ -409,10 +409,10 @@ def apply_dtype(a: AV, dt) -> AV:
             return AV("complex", -INF, INF, a.mlo, a.mhi, a.notes)
         return a
     if isinstance(dt, Opaque) and dt.kind in ("dtype-real", "dtype-bool"):
-        if a.field in ("complex", "imag"):  # numpy discards the imaginary part
-            return real(-a.mhi, a.mhi, a.notes)
-        if a.field == "top":
-            return real(-a.mhi, a.mhi, a.notes)
+        if a.field in ("complex", "imag", "top"):  # numpy discards the imaginary part: certainly real afterwards
+            return real(-a.mhi, a.mhi, a.notes if a.mhi != INF else frozenset())
+        if a.lo == -INF and a.hi == INF:
+            return real()
         return a
     if isinstance(dt, Opaque) and dt.kind == "none":
         return a
@@ -504,6 +504,8 @@ class Interp:
         self._active: list[str] = []
         self._memo: dict = {}
         self._consts: dict[str, dict] = {}
+        self.runs = 0
+        self.max_runs = 600
         self.cexp_calls: list = []  # every e^{ix} construction seen: (FuncInfo, call node, arg AV, result AV)
 
     # ------------------------------------------------------------------ functions
@@ -512,8 +514,10 @@ class Interp:
         key = (f.qualname, repr(sorted((k, repr(v)) for k, v in args.items())), repr(self_val))
         if key in self._memo:
             return self._memo[key]
-        if f.qualname in self._active or self._depth >= self.max_depth:
-            why = "recursion" if f.qualname in self._active else "call depth"
+        self.runs += 1
+        if f.qualname in self._active or self._depth >= self.max_depth or self.runs > self.max_runs:
+            why = "recursion" if f.qualname in self._active else "call depth" if self._depth >= self.max_depth \
+                else "work budget"
             return Summary(f, [(None, unknown(f"{why} limit at {f.qualname}"))],
                            unknown(f"{why} limit at {f.qualname}"), [], [])
         env: dict[str, object] = {}
@@ -1089,6 +1093,8 @@ class _Frame:
             return self.construct(fv, args, kwargs, n)
         if isinstance(fv, Opaque) and fv.kind.startswith("dtype-"):
             a = as_av(args[0], ftext) if args else real(0, 0)
+            if fv.name in ("float", "int") and not a.is_realish:
+                return real()  # float()/int() raise TypeError on complex input: the result is certainly real
             return apply_dtype(a, fv)
         return unknown(f"call {ftext}")
 
